@@ -61,6 +61,19 @@ def gen_set(rng, mode, n):
         for _ in range(max(0, n - 3)):
             boxes.append(rand_box(rng, region=150.0, smin=5.0, smax=20.0))
         if rng.random() < 0.5: rng.shuffle(boxes)
+    elif mode == "parallel":   # elongated boxes with one common non-trivial angle, overlapping far along their long axis
+        ang = f32(rng.choice([0.3, -0.7, 1.1, 2.5, rng.uniform(-3, 3)]))
+        hgt = rng.uniform(2.0, 6.0); asp = rng.choice([4.0, 6.0, 8.0])
+        length = hgt * asp
+        x, y = rng.uniform(20, 60), rng.uniform(20, 60)
+        for i in range(max(2, min(n, 4))):
+            t = i * rng.choice([0.3, 0.5, 0.7]) * length            # along the long axis
+            u = i * rng.choice([0.2, 0.35]) * hgt                   # a little across it: no collinear edges
+            cx = x + t * math.cos(ang) - u * math.sin(ang); cy = y + t * math.sin(ang) + u * math.cos(ang)
+            if i == 2 and rng.random() < 0.5:                      # a small parallel box inside the first long one
+                boxes.append([f32(x + 0.2 * length * math.cos(ang)), f32(y + 0.2 * length * math.sin(ang)), ang, 1.0, f32(hgt * 0.4)])
+            else:
+                boxes.append([f32(cx), f32(cy), ang, f32(asp), f32(hgt)])
     else:  # degenerate
         for _ in range(n):
             r = rng.random()
@@ -90,7 +103,7 @@ def line_of(boxes):
 def generate(rng, tier):
     n = {"quick": 260, "thorough": 6000, "search": 1500}.get(tier, 260)
     cases = []
-    modes = ["lattice", "lattice", "aligned", "rotated", "rotated", "spread", "chain", "degenerate", "degenerate"]
+    modes = ["lattice", "lattice", "aligned", "rotated", "rotated", "spread", "chain", "degenerate", "degenerate", "parallel"]
     for i in range(n):
         mode = modes[i % len(modes)]
         k = rng.randint(1, 8) if mode != "chain" else rng.randint(3, 6)
